@@ -53,7 +53,7 @@ Definition lex_error_spans_refuted_stmt : Prop :=
    there; in a DuplicateName error it can end inside a character (no header
    involved: pos = 0) *)
 Definition header_fixed_only : fixes :=
-  mk_fixes true false false false false false false false.
+  mk_fixes true false false false false false false false false.
 
 Definition lex_error_spans_target_refuted_stmt : Prop :=
   exists src awc pe iw re_bad errs,
